@@ -80,13 +80,17 @@ func verifExpectedRead(base *url.URL, ref string) string {
 	return base.ResolveReference(ru).String()
 }
 
-//verif:harness id=C11 tier=quick,thorough witness=end bounds="one reference at each of 14 positions (the ten resolver kinds, a schema inside a header, a parameter inside a callback, array items, media-type schema) x 20 spellings (relative, ./, ../, d/../, absolute path, file://, http(s)://, scheme-relative, empty fragment, internal missing, malformed fragment, the root's own name, the root's own path on another host) x entry point in {LoadFromData, LoadFromDataWithPath, LoadFromURI} x IsExternalRefsAllowed; every read goes through ReadFromURIFunc"
+//verif:harness id=C11 tier=quick,thorough witness=end bounds="one reference at each of 14 positions (the ten resolver kinds, a schema inside a header, a parameter inside a callback, array items, media-type schema) x 20 spellings (relative, ./, ../, d/../, absolute path, file://, http(s)://, scheme-relative, empty fragment, internal missing, malformed fragment, the root's own name, the root's own path on another host) x entry point in {LoadFromData, LoadFromDataWithPath, LoadFromURI from a path, LoadFromURI from an http URL} x IsExternalRefsAllowed; every read goes through ReadFromURIFunc"
 func verifH_C11_reads() {
 	slot := verifChoose("slot", 14)
 	ref := verifRefSpellings[verifChoose("spelling", len(verifRefSpellings))]
 	allowed := verifChoose("allowed", 2) == 1
-	entry := verifChoose("entry", 3)
+	entry := verifChoose("entry", 4)
 	rootLoc := &url.URL{Path: "/root/doc.json"}
+	if entry == 3 {
+		// the root document itself comes from an http location
+		rootLoc = &url.URL{Scheme: "http", Host: "r.example", Path: "/root/doc.json"}
+	}
 	rootText := verifDocWithRef(slot, ref)
 	var reads []string
 	loader := NewLoader()
@@ -110,7 +114,7 @@ func verifH_C11_reads() {
 	case 1:
 		base = rootLoc
 		_, err = loader.LoadFromDataWithPath([]byte(rootText), rootLoc)
-	case 2:
+	case 2, 3:
 		base = rootLoc
 		_, err = loader.LoadFromURI(rootLoc)
 	}
